@@ -283,8 +283,12 @@ def work_view(facts, body, methods=False):
         return any("circular_buffer::BufferWriter<" in hb.locals[i]["ty"] or "circular_buffer::BufferReader<" in hb.locals[i]["ty"]
                    for i in range(1, min(hb.argc, len(hb.locals) - 1) + 1))
 
+    # ... and, with the block's methods, the crate's free functions that do its reading (`self.refill()` -> `read_data(&mut
+    # self.file, ..)`): the rules about read() sites (C14.R9-R13, C16.R5-R15) look for them in work()
+    io_fns = cg.transitive({"std::io::Read::read"}, depth=2) if methods else set()
     nb, inl = inline.inline_body(facts, body, lambda hb: hb.kind != "closure" and hb.file not in STREAM_FILES and (
-        hb.q in eff_fns or takes_window(hb) or (methods and body.self_adt and hb.self_adt == body.self_adt and hb.kind != "traitimpl")))
+        hb.q in eff_fns or takes_window(hb) or (methods and body.self_adt and hb.self_adt == body.self_adt and hb.kind != "traitimpl")
+        or (methods and hb.q in io_fns and hb.self_adt is None and hb.kind != "traitimpl" and hb.file == body.file)))
     if inl:
         _FACTS_FOR_VERDICTS[id(nb)] = facts
     _view_cache[k] = nb
@@ -412,8 +416,12 @@ def _key_of_body(key, q):
     return key == q or key.startswith(q + ":") or key.startswith(q + "|") or (":" + q + ":") in key or key.endswith(":" + q)
 
 
-def view_fallback(rule_fn):
-    """wrap a rule over Block::work bodies: bodies are judged as compiled; a body that raises an alarm is judged again on its
+def view_fallback(rule_fn, trust_view=False, site_retry=False):
+    """trust_view: the rule's own path questions are value-sensitive (or it asks none), so an alarm that exists only on the view
+    of a body the rule had nothing to say about as compiled is reported too (its anchor moved into a helper together with the
+    defect).
+
+    wrap a rule over Block::work bodies: bodies are judged as compiled; a body that raises an alarm is judged again on its
     work view (helpers that move stream data / take a window / are methods of the block substituted in, value-sensitive
     searches see across the former call boundary) and the view's verdict stands if it is clean.  Inlining preserves
     behaviour, so an alarm that disappears on the view was an artefact of judging the pieces separately; an alarm that stays is
@@ -462,7 +470,7 @@ def view_fallback(rule_fn):
                         # instances the view provides are taken only when they are clean: the rules use plain reachability inside
                         # a body, which on a view crosses former call boundaries path-insensitively - an alarm that exists only
                         # there is not reported (the rule stays as silent on this body as it was)
-                        if m_ and not any(e[0] == "bad" for e in m_):
+                        if m_ and (trust_view or not any(e[0] == "bad" for e in m_)):
                             extra += m_
                 except Exception:
                     extra = []
@@ -483,6 +491,39 @@ def view_fallback(rule_fn):
         for kind, args, kw in extra:
             if kind != "silent":
                 getattr(col, kind)(*args, **kw)
+        # sites the rule could not decide as compiled (a `silent` at a source line) although it decided others in the same body:
+        # the controlling test may live in a helper (`match self.consumable(have) { Err(min) => return wait(src, min), .. }`).
+        # The view's verdict for the same source line is taken - a clean one always, an alarm only from rules whose path
+        # questions are value-sensitive (trust_view)
+        if site_retry:
+            have = {(args[0], args[1]) for kind, args, kw in rec.ev if kind != "silent" and len(args) >= 2}
+            have |= {(a2[0], a2[1]) for k2, a2, kw2 in extra if len(a2) >= 2}
+            for evs in replaced.values():
+                have |= {(a2[0], a2[1]) for k2, a2, kw2 in evs if len(a2) >= 2}
+            sil = {}
+            for kind, args, kw in rec.ev:
+                if kind == "silent" and len(args) >= 3 and args[2]:
+                    for q in works:
+                        if _key_of_body(args[1], q) and q not in replaced and q not in quiet:
+                            sil.setdefault(q, set()).add(args[2])
+            for q, wheres in sil.items():
+                vb = work_view(facts, works[q], methods=True)
+                if vb is works[q]:
+                    continue
+                rec4 = _Rec()
+                try:
+                    rule_fn(_FactsView(facts, [vb]), rec4, *a, **k)
+                except Exception:
+                    continue
+                for kind, args, kw in rec4.ev:
+                    if kind == "silent" or len(args) < 3 or args[2] not in wheres or (args[0], args[1]) in have:
+                        continue
+                    if not _key_of_body(args[1], q):
+                        continue
+                    if kind == "bad" and not trust_view:
+                        continue
+                    have.add((args[0], args[1]))
+                    getattr(col, kind)(*args, **kw)
     wrapped.__name__ = getattr(rule_fn, "__name__", "rule")
     wrapped.__doc__ = rule_fn.__doc__
     return wrapped
